@@ -182,6 +182,8 @@ Specified == {"each", "at", "root", "asm", "set", "setall", "get", "getall", "de
 \* rd: the READING of a clause the descriptions leave open but that must be the same in every call: the sign rule of mod
 \*     ("trunc": sign of the dividend, "floor": sign of the divisor, "euclid": never negative).  A plan is judged against
 \*     every reading; the code has to agree with ONE of them throughout the plan.
+\*     Likewise the reading of sum over numbers and strings: "sumcat" or (any other rd) the left fold, see SumMixed (a
+\*     plan that uses both mod and a mixed sum is judged for "sumcat" with the truncating mod only).
 AtRoot == [mode |-> "root", v |-> Null, al |-> FALSE, rd |-> "trunc"]
 ModReadings == {"trunc", "floor", "euclid"}
 ModRd(vs, rd) ==
@@ -237,6 +239,37 @@ Compare(f, vs) ==
      ELSE IF ~(nums \/ strs) THEN AnyR    \* mixed or other kinds: the descriptions are silent
      ELSE [k |-> "ok", v |-> Bool(\A i, j \in 1..Len(vs) : i < j => rel(vs[i], vs[j]))]
 
+\* sum over numbers AND strings: "If any argument is a string then the result will be a string".  How the numbers enter the
+\* string is not described; two readings are allowed (the code has to follow ONE of them throughout a plan, see rd):
+\*   fold (default): the arguments are added from left to right, number + number is arithmetic, anything + string is
+\*                   concatenation: [sum 1 2.5 x 1] = "3.5x1";
+\*   "sumcat":       every argument is written out, the texts are concatenated: "12.5x1".
+\* Number texts: integers in decimal; floats only where the usual formats agree (non-integral, one or two binary fraction
+\* digits: 2.5, -0.25); any other float that would have to be written makes the result "any".
+FltText(q0) == LET q == QNorm(q0)
+                   m == IF q[1] < 0 THEN -q[1] ELSE q[1]
+                   d == Pow2(q[2]) IN
+               IF q[2] \notin {1, 2} THEN <<>>
+               ELSE (IF q[1] < 0 THEN <<45>> ELSE <<>>) \o Digits(m \div d) \o <<46>>
+                    \o (IF q[2] = 1 THEN <<53>> ELSE IF (m % d) = 1 THEN <<50, 53>> ELSE <<55, 53>>)
+IsMixedSum(vs) == (\E j \in 1..Len(vs) : vs[j].t = "str") /\ (\E j \in 1..Len(vs) : vs[j].t # "str")
+                  /\ \A j \in 1..Len(vs) : vs[j].t = "str" \/ IsNum(vs[j])
+SumMixed(vs, rd) ==
+  LET n == Len(vs)
+      txt(v) == IF v.t = "str" THEN v.v ELSE IF v.t = "int" THEN IntText(v.v) ELSE FltText(v.q)
+      bad(v) == v.t # "str" /\ txt(v) = <<>>
+      RECURSIVE Cat(_), Fold(_, _, _)
+      Cat(j) == IF j > n THEN <<>> ELSE txt(vs[j]) \o Cat(j + 1)
+      Fold(acc, isInt, j) ==            \* (a string follows: j never exceeds n)
+        IF vs[j].t = "str"
+        THEN LET num == MkNum(acc, isInt) IN
+             IF (j > 1 /\ bad(num)) \/ \E i \in j..n : bad(vs[i]) THEN AnyR
+             ELSE [k |-> "ok", v |-> Str((IF j > 1 THEN txt(num) ELSE <<>>) \o Cat(j))]
+        ELSE IF ~Small(acc) THEN AnyR
+        ELSE Fold(QAdd(acc, Q(vs[j])), isInt /\ vs[j].t = "int", j + 1)
+  IN IF rd = "sumcat" THEN (IF \E i \in 1..n : bad(vs[i]) THEN AnyR ELSE [k |-> "ok", v |-> Str(Cat(1))])
+     ELSE Fold(<<0, 0>>, TRUE, 1)
+
 Apply(f, vs) ==
   LET n == Len(vs)
       V(x) == [k |-> "ok", v |-> x] IN
@@ -245,7 +278,7 @@ Apply(f, vs) ==
          THEN LET RECURSIVE Cat(_)
                   Cat(j) == IF j > n THEN <<>> ELSE vs[j].v \o Cat(j + 1) IN V(Str(Cat(1)))
          ELSE IF \E j \in 1..n : vs[j].t = "str"
-              THEN (IF \E j \in 1..n : vs[j].t \notin {"str", "int", "bigint", "flt"} THEN ErrR ELSE AnyR)  \* number formatting is not described
+              THEN (IF \E j \in 1..n : vs[j].t \notin {"str", "int", "bigint", "flt"} THEN ErrR ELSE AnyR)  \* (numbers mixed with strings: SumMixed, by reading)
               ELSE Arith(f, vs)
     [] f \in {"dif", "product", "quotient"} -> Arith(f, vs)
     [] f = "mod" -> IF n # 2 THEN AnyR
@@ -296,12 +329,15 @@ SortBy(list, p) ==
       RECURSIVE Ins(_, _), Srt(_)
       Ins(x, xs) == IF xs = <<>> THEN <<x>> ELSE IF lt(x, xs[1]) THEN <<x>> \o xs ELSE <<xs[1]>> \o Ins(x, Tail(xs))
       Srt(m) == IF m = 0 THEN <<>> ELSE Ins(list[m], Srt(m - 1))
-  IN IF n < 2 THEN AnyR                                          \* nothing is compared: whether the key type is checked is open
+  \* fewer than two items: nothing is compared, so whether the key type is checked is open - unless the keys are valid
+  \* anyway (no item, or one item with a number / string key): then the result is the copy of the array
+  IN IF n < 2 /\ ~(allNum \/ allStr) THEN AnyR
      ELSE IF \E j \in 1..n : ks[j] # Missing /\ ks[j].t \in {"other", "bigint"} THEN AnyR
      ELSE IF ~(allNum \/ allStr) THEN ErrR
      ELSE IF \E i, j \in 1..n : i < j /\ VEq(ks[i], ks[j]) /\ ~VEq(list[i], list[j]) THEN AnyR   \* order of equal keys is open
      ELSE [k |-> "ok", v |-> Arr(Srt(n))]
 
+CopyFns == {"reverse", "sort"}     \* "... and return a copy of it", "... and return a copy of the array"
 RECURSIVE HasMut(_)
 HasMut(n) == CASE n.t = "call" -> Canon(n.fn) \in Mutators \/ n.fn = "each" \/ \E j \in 1..Len(n.a) : HasMut(n.a[j])
                [] n.t = "pair" -> HasMut(n.c) \/ HasMut(n.v)
@@ -359,7 +395,12 @@ Mutate(f, args, root, at) ==
   LET need == IF f \in {"set", "setall"} THEN 2 ELSE 1
       \* a container LITERAL of the plan denotes a value: every evaluation yields it anew (otherwise a plan would not give
       \* the same result on every run), so storing it shares nothing; containers that come from paths or calls may share
-      FreshLit == need = 2 /\ Len(args) = 2 /\ args[2].t \in {"arr", "obj"} IN
+      FreshLit == need = 2 /\ Len(args) = 2 /\ args[2].t \in {"arr", "obj"}
+      \* the result of a function documented to "return a copy" (reverse, sort) is a new array whatever the length of its
+      \* argument (0, 1 or more items): storing it shares nothing with the argument.  The copy is not said to be deep, so
+      \* this holds for arrays of scalars only (container items may be shared with the original)
+      FreshCopy(v) == need = 2 /\ Len(args) = 2 /\ args[2].t = "call" /\ Canon(args[2].fn) \in CopyFns /\ v.t = "arr"
+                      /\ \A j \in 1..Len(v.v) : v.v[j].t \in ScalarTags IN
   IF Len(args) # need THEN AnyR
   ELSE IF args[1].t \notin {"path", "call"} \/ (args[1].t = "call" /\ need = 1) THEN AnyR
   ELSE LET pr == PathArg(args[1], root, at) IN     \* the path is given literally or computed by a nested call (root / at)
@@ -383,11 +424,11 @@ Mutate(f, args, root, at) ==
             ELSE IF need = 2 /\ rv.v.t \in {"arr", "obj"} /\ \E j \in 1..(Len(p.fr) - 1) : Look(rv.at.v, SubSeq(p.fr, 1, j)) = rv.v THEN AnyR
             ELSE LET r == IF need = 2 THEN Put(rv.at.v, p.fr, rv.v) ELSE Del(rv.at.v, p.fr) IN
                  IF r.k # "ok" THEN [k |-> r.k]
-                 ELSE LET at2 == [rv.at EXCEPT !.v = r.v, !.al = @ \/ (need = 2 /\ rv.v.t \in {"arr", "obj"} /\ ~FreshLit)] IN
+                 ELSE LET at2 == [rv.at EXCEPT !.v = r.v, !.al = @ \/ (need = 2 /\ rv.v.t \in {"arr", "obj"} /\ ~FreshLit /\ ~FreshCopy(rv.v))] IN
                       [k |-> "ok", v |-> at2.v, isAt |-> TRUE, root |-> rv.root, at |-> at2]
        ELSE LET r == IF need = 2 THEN Put(rv.root, p.fr, rv.v) ELSE Del(rv.root, p.fr) IN
             IF r.k # "ok" THEN [k |-> r.k]
-            ELSE LET at2 == [rv.at EXCEPT !.al = @ \/ (need = 2 /\ rv.v.t \in {"arr", "obj"} /\ ~FreshLit)] IN
+            ELSE LET at2 == [rv.at EXCEPT !.al = @ \/ (need = 2 /\ rv.v.t \in {"arr", "obj"} /\ ~FreshLit /\ ~FreshCopy(rv.v))] IN
                  [k |-> "ok", v |-> AtVal(r.v, at2), isAt |-> TRUE, root |-> r.v, at |-> at2]
 
 Eval(n, root, at) ==
@@ -479,7 +520,8 @@ Eval(n, root, at) ==
                 ELSE IF e.k = "err" THEN (IF f \in {"and", "or", "equal", "neq", "lt", "lte", "gt", "gte"} THEN AnyR ELSE ErrR)
                 ELSE IF f \in {"and", "or", "equal", "neq", "lt", "lte", "gt", "gte"} /\ \E j \in 1..Len(n.a) : HasMut(n.a[j]) THEN AnyR
                 ELSE IF \E j \in 1..Len(e.vs) : e.vs[j].t \notin ValueTags THEN AnyR
-                ELSE LET r == IF f = "mod" THEN ModRd(e.vs, e.at.rd) ELSE Apply(f, e.vs) IN
+                ELSE LET r == IF f = "mod" THEN ModRd(e.vs, e.at.rd)
+                              ELSE IF f = "sum" /\ IsMixedSum(e.vs) THEN SumMixed(e.vs, e.at.rd) ELSE Apply(f, e.vs) IN
                      IF r.k # "ok" THEN r ELSE Ok(r.v, e.root, e.at)
            [] OTHER -> AnyR      \* Opaque(fn)
     [] OTHER -> AnyR
